@@ -207,6 +207,16 @@ def gen(rng: random.Random, tier: str):
     cases.append(mk_cons("dict", {"entries": []}, 0, tags=("corpus", "empty")))
     cases.append(mk_cons("rows", {"rows": [[1, 0, {}], [0, 1, {}]]}, 2, tags=("corpus", "cyclic")))
     cases.append(mk_cons("rows", {"rows": [[1, 0, {"s": 1}], [1, 2, {"s": 2}]]}, 3, tags=("corpus", "conflict")))
+    # every ORDER of a few small cyclic relations (a cycle closed through a chain that was extended at the top after
+    # its lower part had been linked - the loop check must see the ancestors as they are now, not as they were)
+    import itertools as _it
+    cyc_sets = [[[0, 1], [1, 2], [2, 3], [4, 0], [2, 4]],      # g>p, p>x, x>y, a>g, x>a
+                [[0, 1], [1, 2], [3, 0], [2, 3]],
+                [[0, 1], [1, 2], [2, 3], [3, 1], [4, 0]]]
+    for cs in (cyc_sets if tier == "thorough" else cyc_sets[:2]):
+        nn = 1 + max(max(e) for e in cs)
+        for perm in _it.permutations(cs):
+            cases.append(mk_cons("list", {"rel": [list(e) for e in perm]}, nn, tags=("enum", "cyclic", "all-orders")))
     # exhaustive small scope
     for n in range(2, 5):
         for es in U.all_acyclic_edge_sets(n):
